@@ -90,7 +90,7 @@ pub mod proofs {
 
     /// deliveries of SA nested in register(SA, ..)
     #[kani::proof]
-    #[kani::unwind(7)]
+    #[kani::unwind(10)]
     pub fn c02_nest_register() {
         setup(1);
         unsafe {
@@ -112,7 +112,7 @@ pub mod proofs {
 
     /// deliveries of SA nested in unregister(first of two)
     #[kani::proof]
-    #[kani::unwind(7)]
+    #[kani::unwind(10)]
     pub fn c02_nest_unregister() {
         let (id1, _id2) = setup(2);
         unsafe {
